@@ -256,6 +256,19 @@ theorem channels_conv_eq :
     fwc_conv_2_2_4_N4_bn = convNetC 2 2 4 true 4 ∧
     fwc_conv_2_3_4_N1_bn = convNetC 2 3 4 true 1 := by decide
 
+/-- the learned initialisers: dilated chain, multi-scale concatenation of the last `multiscale_depth` feature maps, 1×1 output
+block with `sum(channels[-multiscale_depth:])` input channels (2-D and 3-D vSHARP: the parametric `lagrangeC`; RIMInit /
+RecurrentInit with their `depth` output blocks: the program runs, ends with `out_channels` and leaves no register) -/
+theorem channels_initializers_ok :
+    fwc_lagrange_2_2_ms1 = lagrangeC 2 2 [2, 3, 4, 5] 1 ∧
+    fwc_lagrange_2_3_ms3 = lagrangeC 2 3 [2, 3, 4] 3 ∧
+    fwc_lagrange_2_2_ms2 = lagrangeC 2 2 [3, 4, 5, 6] 2 ∧
+    fwc_lagrange3d_2_2_ms2 = lagrangeC 2 2 [2, 3, 4] 2 ∧
+    runC fwc_riminit_2_5_ms2 ⟨2, [], []⟩ = .ok ⟨5, [], []⟩ ∧
+    runC fwc_recurrentinit_2_4_ms3 ⟨2, [], []⟩ = .ok ⟨4, [], []⟩ ∧
+    runC (lagrangeC 2 3 [2, 3, 4] 3) ⟨2, [], []⟩ = .ok ⟨3, [], []⟩ ∧
+    runC (lagrangeC 2 2 [3, 4, 5, 6] 2) ⟨2, [], []⟩ = .ok ⟨2, [], []⟩ := by decide
+
 /-- Conv2dGRU (with and without dense connections, normalised variant): the channel program read from `forward` runs for
 the instantiated widths, ends with `out_channels`, leaves no register behind, and shows `hidden_channels` at every
 hooked conv block and `out_channels` at the last (`gruChanTrace`, which the driver uses for the full hook shapes) -/
@@ -361,15 +374,71 @@ theorem schedule_MRIVarSplitNet_eq :
     sched_MRIVarSplitNet_normunet_None_zero_filled = Sched.blocks (schedVarSplit false) 2 := by decide
 
 theorem schedule_VSharpNet_eq :
-    sched_VSharpNet_unet_sense = Sched.blocks (schedSingle 6 2) 2 ∧
-    sched_VSharpNet_normunet_zero_filled = Sched.blocks (schedSingle 6 2) 2 ∧
-    sched_VSharpNet_resnet_sense = Sched.blocks (schedSingle 6 2) 2 ∧
-    sched_VSharpNet_didn_sense = Sched.blocks (schedSingle 6 2) 2 ∧
-    sched_VSharpNet_conv_zero_filled = Sched.blocks (schedSingle 6 2) 2 := by decide
+    sched_VSharpNet_unet_sense = Sched.blocks (schedVSharp) 2 ∧
+    sched_VSharpNet_normunet_zero_filled = Sched.blocks (schedVSharp) 2 ∧
+    sched_VSharpNet_resnet_sense = Sched.blocks (schedVSharp) 2 ∧
+    sched_VSharpNet_didn_sense = Sched.blocks (schedVSharp) 2 ∧
+    sched_VSharpNet_conv_zero_filled = Sched.blocks (schedVSharp) 2 := by decide
 
 theorem schedule_VSharpNet3D_eq :
-    sched_VSharpNet3D_unet = Sched.blocks (schedSingle 6 2) 2 ∧
-    sched_VSharpNet3D_normunet = Sched.blocks (schedSingle 6 2) 2 := by decide
+    sched_VSharpNet3D_unet = Sched.blocks (schedVSharp) 2 ∧
+    sched_VSharpNet3D_normunet = Sched.blocks (schedVSharp) 2 := by decide
+
+
+/-! ### further zoo entries (architecture options, call options; `harness/props/c17_zoo.py`) -/
+
+theorem schedule_RIM_more_eq :
+    sched_RIM_given_input_image = Sched.blocks (schedSingle 4 2) 2 ∧
+    sched_RIM_init_input_kspace = Sched.blocks (schedSingle 4 2) 2 ∧
+    sched_RIM_init_input_image = Sched.blocks (schedSingle 4 2) 2 ∧
+    sched_RIM_two_calls_previous_state = Sched.blocks (schedSingle 4 2) 2 ∧
+    sched_RIM_learned_init_ms1_depth2 = Sched.blocks (schedSingle 4 2) 2 ∧
+    sched_RIM_shared_length3 = Sched.blocks (schedSingle 4 2) 3 := by decide
+
+theorem schedule_RecurrentVarNet_more_eq :
+    sched_RecurrentVarNet_learned_sense_ms3 = Sched.blocks (schedSingle 2 2) 3 := by decide
+
+theorem schedule_ConjGradNet_more_eq :
+    sched_ConjGradNet_resnet_sense_FR_shared = Sched.blocks (schedSingle 2 2) 3 := by decide
+
+theorem schedule_MRIVarSplitNet_more_eq :
+    sched_MRIVarSplitNet_conv_conv_sense_shared = Sched.blocks (schedVarSplit true) 3 := by decide
+
+theorem schedule_VSharpNet_more_eq :
+    sched_VSharpNet_unet_sense_shared = Sched.blocks (schedVSharp) 3 ∧
+    sched_VSharpNet_conv_sense_aux1_ms1_relu = Sched.blocks (schedVSharp) 3 ∧
+    sched_VSharpNet_resnet_zero_filled_aux2_leaky = Sched.blocks (schedVSharp) 3 := by decide
+
+theorem schedule_IterDualNet_more_eq :
+    sched_IterDualNet_image_normunet = Sched.blocks (schedIterDual true) 2 ∧
+    sched_IterDualNet_kspace_normunet_shared_image = Sched.blocks (schedIterDual true) 2 := by decide
+
+theorem schedule_LPDNet_more_eq :
+    sched_LPDNet_MWCNN_UNET = Sched.blocks (schedLpd 2 3) 2 ∧
+    sched_LPDNet_MWCNN_NORMUNET = Sched.blocks (schedLpd 2 3) 2 ∧
+    sched_LPDNet_UNET_CONV = Sched.blocks (schedLpd 2 3) 2 ∧
+    sched_LPDNet_UNET_NORMUNET = Sched.blocks (schedLpd 2 3) 2 ∧
+    sched_LPDNet_NORMUNET_DIDN = Sched.blocks (schedLpd 2 3) 2 ∧
+    sched_LPDNet_NORMUNET_UNET = Sched.blocks (schedLpd 2 3) 2 := by decide
+
+theorem schedule_KIKINet_more_eq :
+    sched_KIKINet_MWCNN_CONV = Sched.blocks (schedKiki) 3 ∧
+    sched_KIKINet_MWCNN_UNET = Sched.blocks (schedKiki) 3 ∧
+    sched_KIKINet_UNET_DIDN = Sched.blocks (schedKiki) 3 ∧
+    sched_KIKINet_UNET_UNET = Sched.blocks (schedKiki) 3 ∧
+    sched_KIKINet_UNET_NORMUNET = Sched.blocks (schedKiki) 3 ∧
+    sched_KIKINet_NORMUNET_CONV = Sched.blocks (schedKiki) 3 ∧
+    sched_KIKINet_NORMUNET_DIDN = Sched.blocks (schedKiki) 3 ∧
+    sched_KIKINet_NORMUNET_NORMUNET = Sched.blocks (schedKiki) 3 := by decide
+
+theorem schedule_VSharpNet3D_more_eq :
+    sched_VSharpNet3D_unet_zero_filled_shared = Sched.blocks (schedVSharp) 2 ∧
+    sched_VSharpNet3D_normunet_aux1_ms2 = Sched.blocks (schedVSharp) 2 := by decide
+
+/-- every denoiser call of every unrolled network is made on the channels-first view of its tensor (behind the batch axis,
+or behind batch and coil for per-coil calls) and its result is brought back by the inverse permutation (RIM keeps the
+documented channels-first output) -/
+theorem schedule_permute_pairs_ok : sched_permute_pairs.all permRowOk = true ∧ sched_permute_pairs ≠ [] := by decide
 
 /-- the permuted views on which the denoisers are called are the channel-first layouts of the model -/
 theorem schedule_permutes_eq :
